@@ -420,3 +420,26 @@ CONFIGS['calls_inline'] = dict(CONFIGS['calls_quick'], async_handlers=False,
 CONFIGS['calls'] = dict(CONFIGS['calls_quick'], ns_h=['/', '/a'],
                         ns_all=['/', '/a'], ns_api=['/', '/a'], max_sid=3,
                         call_ack_ids=[0, 1, 2, 3])
+
+# ---- larger scopes, explored by seeded random histories only (walks)
+CONFIGS['rooms_big'] = dict(
+    transports=['t1', 't2', 't3', 't4'], ns_h=['/', '/a'],
+    ns_all=['/', '/a', '/b', '/x'], ns_api=['/', '/a', '/b'],
+    ns_opt=['/', '/a', '/b'], max_sid=7, rooms=['r1', 'r2', 'r3', 's1', 's3'],
+    emit_to=[('none', []), ('one', ['r1']), ('one', ['r2']), ('one', ['s1']),
+             ('one', ['s2']), ('one', ['s4']), ('list', ['r1', 'r2']),
+             ('list', ['r3', 's1', 'r1']), ('list', ['r2', 'r2']),
+             ('list', ['s2', 's3', 's5'])],
+    emit_skip=[('none', []), ('one', ['s1']), ('one', ['s3']),
+               ('list', ['s1', 's2', 's4']), ('list', ['s6'])],
+    alpha='rooms')
+CONFIGS['acks_big'] = dict(CONFIGS['acks'], transports=['t1', 't2', 't3'],
+                           max_sid=6, max_ack=4,
+                           ack_ids=[0, 1, 2, 3, 4, 5, 99])
+CONFIGS['sessions_big'] = dict(CONFIGS['sessions'],
+                               transports=['t1', 't2', 't3'], max_sid=8)
+CONFIGS['residue_big'] = dict(CONFIGS['residue'],
+                              transports=['t1', 't2', 't3'], max_sid=7,
+                              max_ack=2, plain_transports=['t3'])
+CONFIGS['calls_big'] = dict(CONFIGS['calls'], transports=['t1', 't2', 't3'],
+                            max_sid=5, max_ack=4)
